@@ -85,8 +85,14 @@ func Walk(ctx context.Context, fileSystem fs.FS, prefix, delimiter, marker strin
 		if path == "." {
 			return nil
 		}
-		if contains(d.Name(), skipdirs) {
-			return fs.SkipDir
+		// the names to skip are entries of the bucket directory itself; a
+		// key with such a name further down is a key like any other
+		if contains(path, skipdirs) {
+			if d.IsDir() {
+				return fs.SkipDir
+			}
+			// SkipDir for a file would skip the rest of its directory
+			return nil
 		}
 
 		// After this point, return skipflag instead of nil
@@ -273,15 +279,11 @@ func Walk(ctx context.Context, fileSystem fs.FS, prefix, delimiter, marker strin
 	}, nil
 }
 
-// belowSkipped reports whether one of the path elements of root is a
-// directory that the walk skips
+// belowSkipped reports whether root is, or lies below, one of the entries
+// of the bucket directory that the walk skips
 func belowSkipped(root string, skipdirs []string) bool {
-	for _, elem := range strings.Split(root, "/") {
-		if contains(elem, skipdirs) {
-			return true
-		}
-	}
-	return false
+	top, _, _ := strings.Cut(root, "/")
+	return contains(top, skipdirs)
 }
 
 func contains(a string, strs []string) bool {
@@ -339,8 +341,14 @@ func WalkVersions(ctx context.Context, fileSystem fs.FS, prefix, delimiter, keyM
 		if path == "." {
 			return nil
 		}
-		if contains(d.Name(), skipdirs) {
-			return fs.SkipDir
+		// the names to skip are entries of the bucket directory itself; a
+		// key with such a name further down is a key like any other
+		if contains(path, skipdirs) {
+			if d.IsDir() {
+				return fs.SkipDir
+			}
+			// SkipDir for a file would skip the rest of its directory
+			return nil
 		}
 
 		if !pastMarker {
